@@ -20,6 +20,7 @@ declare -A props=(
   [emulator_cases_reordered]="C16 C17 C18 C06"
   [can_codec_renamed]="C15 C09 C14 C08"
   [small_codecs_rewritten]="C14 C15 C19"
+  [udp_port_rewritten]="C06 C18 C01"
 )
 for f in harmless/*.diff; do
   n=$(basename $f .diff)
